@@ -1,5 +1,61 @@
-(* C01 - placeholder until ConcInv.v is delivered *)
-From LC Require Import Conc.
-Theorem C01_model_initial_state_idle : forall hp rc arrs t, thr (ginit hp rc arrs) t = Idle.
-Proof. reflexivity. Qed.
-Print Assumptions C01_model_initial_state_idle.
+(* C01 - linearizability across every kind of resize: the protocol half.
+   Theorems about the L2 interleaving model (Conc.v), for ANY number of threads, ANY client
+   programs (the model's threads choose operations, stripes and resizes nondeterministically) and
+   EVERY schedule: [reachable] quantifies over all finite sequences of steps.
+   C01_validated_current is the statement that turns the sequential refinement theorems (C02) into
+   atomicity of critical sections: a thread that passed its generation check works on the CURRENT
+   lock array, with the CURRENT table size and generation, owning its stripes, while no whole-table
+   operation is in progress.  What is NOT mechanised: the composition "critical sections are atomic
+   + sequential refinement of their bodies => every history has a linearization"; that step is
+   argued in DESIGN 6.1 and histories of the real library are checked for linearizability by the
+   T2 harness.  Hence the suffix _partial on the summary theorem.
+   Statements only; closed by [exact] of lemmas of ConcInv.v. *)
+From Coq Require Import NArith List.
+From LC Require Import Conc ConcInv.
+Import ListNotations.
+
+Theorem C01_validated_current : forall hp0 rc0 arrs0, arrs_ok arrs0 -> forall s, reachable hp0 rc0 arrs0 s ->
+  forall t sn sa x r, thr s t = CS sn sa (x :: r) \/ (exists l, thr s t = CW sn sa (x :: r) l) ->
+  sc sn = g_rc (sh_ s) /\ sh sn = g_hp (sh_ s) /\ sa + 1 = narr (sh_ s) /\ g_dirty (sh_ s) = false /\ (forall y, In y (x :: r) -> g_held (sh_ s) sa y = Some t /\ y < asz (sh_ s) sa) /\ (forall t', ~ all_holder (thr s t')).
+Proof. exact validated_current. Qed.
+Print Assumptions C01_validated_current.
+
+Theorem C01_resize_excludes_every_critical_section : forall hp0 rc0 arrs0, arrs_ok arrs0 -> forall s, reachable hp0 rc0 arrs0 s ->
+  forall t first d, thr s t = AH first d -> forall t', t' <> t -> ~ validated (thr s t') /\ ~ all_holder (thr s t').
+Proof. exact all_holder_exclusive. Qed.
+Print Assumptions C01_resize_excludes_every_critical_section.
+
+Theorem C01_size_generation_locklist_written_only_under_all_locks : forall s t lb s', gstep s t lb = Some s' ->
+  g_hp (sh_ s') <> g_hp (sh_ s) \/ g_rc (sh_ s') <> g_rc (sh_ s) \/ g_arrs (sh_ s') <> g_arrs (sh_ s) -> all_holder (thr s t).
+Proof. exact writes_only_under_all_locks. Qed.
+Print Assumptions C01_size_generation_locklist_written_only_under_all_locks.
+
+Theorem C01_generation_bumped_before_release : forall hp0 rc0 arrs0, arrs_ok arrs0 -> forall s, reachable hp0 rc0 arrs0 s ->
+  forall t first d a l s', thr s t = AH first d -> gstep s t (UNLOCK a l) = Some s' ->
+  d = false /\ g_dirty (sh_ s) = false /\ g_hp (sh_ s) = g_hp0 (sh_ s) /\ narr (sh_ s) = g_narr0 (sh_ s).
+Proof. exact release_only_after_bump. Qed.
+Print Assumptions C01_generation_bumped_before_release.
+
+Theorem C01_generation_monotone : forall s t lb s', gstep s t lb = Some s' -> (g_rc (sh_ s) <= g_rc (sh_ s'))%N.
+Proof. exact rc_monotone. Qed.
+Print Assumptions C01_generation_monotone.
+
+(* every event trace that replays in the model ends in a state satisfying the whole invariant: this
+   is the link used by the T2 harness (real traces are replayed by the extracted [replay]) *)
+Theorem C01_replayed_traces_satisfy_invariant : forall hp0 rc0 arrs0 tr s, arrs_ok arrs0 ->
+  replay (ginit hp0 rc0 arrs0) tr = Some s -> Inv s.
+Proof. exact replay_Inv. Qed.
+Print Assumptions C01_replayed_traces_satisfy_invariant.
+
+(* the defect found while proving all_holder_exclusive (unlocker walking to the CURRENT list end):
+   its witness trace is a run of the old step relation and is rejected by the repaired one *)
+Theorem C01_tail_unlock_witness_rejected :
+  replay (ginit 0 0 [1]) [(0, BEGIN 3); (0, ALL_FIRST 0); (0, LOCKED 0 0); (0, ALL_NEXT false); (0, UNLOCK 0 0);
+                          (1, BEGIN 3); (1, ALL_FIRST 0); (1, LOCKED 0 0); (1, ALL_NEXT false); (1, EMPLACE 1)] <> None /\ replay (ginit 0 0 [1]) [(0, BEGIN 3); (0, ALL_FIRST 0); (0, LOCKED 0 0); (0, ALL_NEXT false); (0, UNLOCK 0 0);
+                          (1, BEGIN 3); (1, ALL_FIRST 0); (1, LOCKED 0 0); (1, ALL_NEXT false); (1, EMPLACE 1); (0, UNLOCK 1 0)] = None.
+Proof. exact tail_race_trace_rejected. Qed.
+
+(* non-vacuity: a validated thread exists in a reachable state *)
+Example C01_ex_validated_reachable : exists s, replay (ginit 3 0 [2]) [(0, BEGIN 1); (0, LD_RC 0); (0, LD_HP 3); (0, CURLOCKS 0);
+   (0, LOCKREQ 0 1); (0, LOCKED 0 1); (0, LD_RC 0)] = Some s /\ validated (thr s 0).
+Proof. eexists. split; [vm_compute; reflexivity|exact I]. Qed.
